@@ -42,6 +42,9 @@ pub struct ExecRecord {
     /// whether read-fonts accepts the output as an sfnt, and its table tags
     pub font_ok: Option<bool>,
     pub font_tables: Vec<String>,
+    /// what is structurally wrong with the output font, if anything (see oracle::font_problems)
+    #[serde(default)]
+    pub font_problems: Vec<String>,
     #[serde(skip)]
     pub font: Option<Vec<u8>>,
     pub steps: usize,
@@ -164,6 +167,8 @@ pub fn layout(plan: &Plan, sandbox: &Path) -> Layout {
         sandbox.join("src").join(rel)
     } else if let Some(rel) = plan.source.strip_prefix("extra:") {
         crate::workload::extra_sources_dir().expect("the sources directory kept with the checks").join(rel)
+    } else if let Some(rel) = plan.source.strip_prefix("hostile:") {
+        crate::workload::hostile_cases_dir().expect("the hostile cases kept with the checks").join(rel)
     } else if plan.source.starts_with('/') {
         PathBuf::from(&plan.source)
     } else if plan.faults.iter().any(|f| f.kind.starts_with("src-")) {
@@ -320,6 +325,10 @@ pub fn execute(plan: &Plan, sandbox: &Path, verbose: bool) -> ExecRecord {
         },
         None => (None, vec![]),
     };
+    let font_problems = match (font.as_ref(), font_ok) {
+        (Some(bytes), Some(true)) => crate::oracle::font_problems(bytes),
+        _ => vec![],
+    };
     let mut build_files = Vec::new();
     list_files(&lay.build_dir, &lay.build_dir, &mut build_files);
 
@@ -383,6 +392,7 @@ pub fn execute(plan: &Plan, sandbox: &Path, verbose: bool) -> ExecRecord {
         font_len: font.as_ref().map(|b| b.len()).unwrap_or(0),
         font_ok,
         font_tables,
+        font_problems,
         font,
         steps: state.step,
         tasks,
